@@ -105,9 +105,17 @@ def gaussPerturb (isSparse : Bool) (R : Mat) (e : Vec) : Option Vec :=
 def gaussSample (isSparse : Bool) (mean : Vec) (R : Mat) (e : Vec) : Option Vec :=
   (gaussPerturb isSparse R e).map (fun p => vadd (bcast R.length mean) p)
 
-/-- all `N` columns of `e` (given as the list of its columns) -/
+/-- all `N` columns of `e` (given as the list of its columns); same values as `gaussSample` column
+    by column (`QMat.solve R e = (inverse R).map (mulVec · e)`), with the elimination shared. -/
 def gaussSampleN (isSparse : Bool) (mean : Vec) (R : Mat) (cols : List Vec) : Option (List Vec) :=
-  cols.mapM (gaussSample isSparse mean R)
+  match solverOf isSparse R with
+  | .triLower => cols.mapM (gaussSample isSparse mean R)
+  | _ =>
+    match inverse R with
+    | none => none
+    | some Ri => cols.mapM (fun e =>
+        let p := mulVec Ri e
+        if solves R p e then some (vadd (bcast R.length mean) p) else none)
 
 /-- `Lognormal._sample`: `np.exp(self._normal._sample(N, rng))` — the Gaussian part (the exponential
     is applied by the driver's caller; the law is the push-forward, see `Props`). -/
@@ -162,6 +170,134 @@ def gmrfDrawRows (bc : C20.BC) (dim dRows : Nat) : Nat :=
   | .neumann => dRows
   | _ => dim
 
+/-- Families by the shape their `_sample` returns. -/
+inductive Family
+  | gaussian | lognormal | normal | gamma | invgamma | beta | laplace | uniform | cauchy | mhn
+  | gmrfZero | gmrfNeumann | gmrfPeriodic
+  deriving DecidableEq, Repr
+
+def Family.ofString : String → Option Family
+  | "gaussian" => some .gaussian | "lognormal" => some .lognormal | "normal" => some .normal
+  | "gamma" => some .gamma | "invgamma" => some .invgamma | "beta" => some .beta
+  | "laplace" => some .laplace | "uniform" => some .uniform | "cauchy" => some .cauchy
+  | "mhn" => some .mhn | "gmrfZero" => some .gmrfZero | "gmrfNeumann" => some .gmrfNeumann
+  | "gmrfPeriodic" => some .gmrfPeriodic | _ => none
+
+
+/-! ## 3. Univariate (iid-component) families: generator plumbing and closed-form log-densities -/
+
+/-- A call handed to the random generator (or to `scipy.stats.<law>.rvs(..., random_state=rng)`):
+    method name, the parameter vectors in call order, and the requested `size = (N, dim)`.
+    The result is transposed (`.T`) to `(dim, N)`. -/
+structure GenCall where
+  method : String
+  args : List Vec
+  size : Nat × Nat
+  deriving Repr, DecidableEq
+
+/-- `_sample` of the iid families: which generator, with which tuple.
+    `params` are the distribution's own parameters in constructor order
+    (Normal: mean, std; Gamma: shape, rate; InverseGamma: shape, location, scale; Beta: alpha, beta;
+     Laplace: location, scale; Uniform: low, high; Cauchy: location, scale). -/
+def plumb (fam : Family) (params : List Vec) (dim N : Nat) : Option GenCall :=
+  match fam, params with
+  | .normal, [mean, std] => some ⟨"normal", [mean, std], (N, dim)⟩
+  | .gamma, [shape, rate] =>
+      if rate.any (· == 0) then none else some ⟨"gamma", [shape, rate.map (1 / ·)], (N, dim)⟩
+  | .invgamma, [shape, loc, scale] => some ⟨"invgamma.rvs", [shape, loc, scale], (N, dim)⟩
+  | .beta, [a, b] => some ⟨"beta.rvs", [a, b], (N, dim)⟩
+  | .laplace, [loc, scale] => some ⟨"laplace", [loc, scale], (N, dim)⟩
+  | .uniform, [low, high] => some ⟨"uniform", [low, high], (N, dim)⟩
+  | .cauchy, [loc, scale] => some ⟨"cauchy.rvs", [loc, scale], (N, dim)⟩
+  | _, _ => none
+
+/-- the tuple the *density* of the same object hands to the same law
+    (`sps.gamma.logpdf(x, a=shape, loc=0, scale=1/rate)`, `sps.invgamma.logpdf(x, a, loc, scale)`,
+     `sps.beta.logpdf(x, a, b)`); for the closed-form densities see `normalLogpdf` … below. -/
+def densityTuple (fam : Family) (params : List Vec) : Option (List Vec) :=
+  match fam, params with
+  | .gamma, [shape, rate] => if rate.any (· == 0) then none else some [shape, rate.map (1 / ·)]
+  | .invgamma, [shape, loc, scale] => some [shape, loc, scale]
+  | .beta, [a, b] => some [a, b]
+  | _, _ => none
+
+/-- the `(N, dim)` array the generator returned becomes the `(dim, N)` array of draws: `.T` -/
+def iidDraws (g : Mat) (dim : Nat) : Mat := transposeN dim g
+
+open RExpr in
+/-- `Normal.logpdf`, one component: `-log(std*sqrt(2*pi)) - 0.5*((x-mean)/std)**2` -/
+def normalLogpdf (x m s : RExpr) : RExpr := -(log (s * sqrt (2 * pi))) - (1 / 2 : RExpr) * ((x - m) / s) ^ 2
+open RExpr in
+/-- `Laplace.logpdf`, one component: `log(0.5/scale) - |x-location|/scale` -/
+def laplaceLogpdf (x l b : RExpr) : RExpr := log ((1 / 2 : RExpr) / b) - abs (x - l) / b
+open RExpr in
+/-- `Uniform.logpdf` inside the box, dim 1: `log(1.0/(high-low))` -/
+def uniformLogpdf (lo hi : RExpr) : RExpr := log (1 / (hi - lo))
+open RExpr in
+/-- `Cauchy.logpdf`, one component: `-log(pi*scale*(1+((x-location)/scale)**2))` -/
+def cauchyLogpdf (x l s : RExpr) : RExpr := -(log (pi * s * (1 + ((x - l) / s) ^ 2)))
+open RExpr in
+/-- `Gaussian.logpdf`, dim 1 with stored `sqrtprec = r`: `-0.5*(log(2*pi) + logdet) - 0.5*(r*(x-mean))**2`,
+    `logdet = -log(r**2)` -/
+def gauss1Logpdf (x m r : RExpr) : RExpr :=
+  -((1 / 2 : RExpr) * (log (2 * pi) + -(log (r ^ 2)))) - (1 / 2 : RExpr) * (r * (x - m)) ^ 2
+
+/-! ## 4. ModifiedHalfNormal -/
+
+/-- The parameters `_sample` and `logpdf` actually read: the getters `beta` and `gamma` both return
+    `self._alpha` (as coded). -/
+def mhnRead (α _β _γ : Rat) : Rat × Rat × Rat := (α, α, α)
+
+inductive MhnScheme | negGamma | posGamma1 | gammaProposal
+  deriving DecidableEq, Repr
+
+/-- `_MHN_sample`: `gamma <= 0` → Algorithm 3; `alpha > 1` → `_MHN_sample_positive_gamma_1`
+    (normal or sqrt-gamma proposal by `K2 > K1`); else sqrt-gamma proposal. -/
+def mhnScheme (α _β γ : Rat) : MhnScheme :=
+  if γ ≤ 0 then .negGamma else if α > 1 then .posGamma1 else .gammaProposal
+
+namespace Mhn
+open RExpr
+
+/-- real power `x ** a` as `exp(a*log x)` (arguments are positive where the code uses `np.power`) -/
+def rpow (x a : RExpr) : RExpr := exp (a * log x)
+
+/-- `delta = beta + (gamma² - gamma*sqrt(gamma² + 8*beta*alpha))/(4*alpha)` -/
+def delta (α β γ : RExpr) : RExpr := β + (γ * γ - γ * sqrt (γ * γ + 8 * β * α)) / (4 * α)
+/-- `mu = (gamma + sqrt(gamma² + 8*beta*(alpha-1)))/(4*beta)` -/
+def mu (α β γ : RExpr) : RExpr := (γ + sqrt (γ * γ + 8 * β * (α - 1))) / (4 * β)
+/-- mode used as matching point: `(gamma + sqrt(gamma² + 8*beta*alpha))/(4*beta)` -/
+def mode (α β γ : RExpr) : RExpr := (γ + sqrt (γ * γ + 8 * β * α)) / (4 * β)
+def K1 (α β γ : RExpr) : RExpr :=
+  2 * sqrt pi * rpow ((sqrt β * (α - 1)) / (2 * β * mu α β γ - γ)) (α - 1) * exp (-(α - 1) + β * mu α β γ * mu α β γ)
+def K2 (α β γ : RExpr) : RExpr :=
+  rpow (β / delta α β γ) ((1 / 2 : RExpr) * α) * exp (lgamma (α / 2)) * exp (γ * γ / (4 * (β - delta α β γ)))
+
+/-- sqrt-gamma proposal: `T ~ gamma(alpha/2, 1/delta)`, `X = sqrt(T)`; log-acceptance bound -/
+def gpShape (α : RExpr) : RExpr := α / 2
+def gpScale (α β γ : RExpr) : RExpr := 1 / delta α β γ
+def gpX (t : RExpr) : RExpr := sqrt t
+def gpAccept (α β γ t : RExpr) : RExpr :=
+  -(β - delta α β γ) * t + γ * sqrt t - γ * γ / (4 * (β - delta α β γ))
+
+/-- normal proposal: `X ~ normal(mu, sqrt(0.5/beta))`; bound as coded:
+    `(alpha-1)*log(X) - log(mu) + (2*beta*mu-gamma)*(mu-X)` -/
+def npLoc (α β γ : RExpr) : RExpr := mu α β γ
+def npScale (β : RExpr) : RExpr := sqrt ((1 / 2 : RExpr) / β)
+def npAccept (α β γ x : RExpr) : RExpr :=
+  (α - 1) * log x - log (mu α β γ) + (2 * β * mu α β γ - γ) * (mu α β γ - x)
+
+/-- Algorithm 3 (`gamma <= 0`), matching point `m`: `val1 = (beta*m-gamma)/(2*beta*m-gamma)`,
+    `val2 = m*(beta*m-gamma)`, `T ~ gamma(alpha*val1, 1/val2)`, `X = m*T**val1`,
+    bound `val2*T - beta*X² + gamma*X` -/
+def ngVal1 (β γ m : RExpr) : RExpr := (β * m - γ) / (2 * β * m - γ)
+def ngVal2 (β γ m : RExpr) : RExpr := m * (β * m - γ)
+def ngX (β γ m t : RExpr) : RExpr := m * rpow t (ngVal1 β γ m)
+def ngAccept (β γ m t : RExpr) : RExpr :=
+  ngVal2 β γ m * t - β * ngX β γ m t * ngX β γ m t + γ * ngX β γ m t
+
+end Mhn
+
 /-! ## 5. `Distribution.sample`: refusal and wrapping -/
 
 /-- shape of what `_sample` returned (a numpy array of 1 or 2 axes) -/
@@ -188,19 +324,6 @@ def wrap (isCond : Bool) (N : Nat) (raw : Raw) : Wrapped :=
 def Raw.ns : Raw → Nat | .d1 n => n | .d2 _ c => c
 /-- number of parameters per draw: `prod(shape[:-1])` -/
 def Raw.perDraw : Raw → Nat | .d1 _ => 1 | .d2 r _ => r
-
-/-- Families by the shape their `_sample` returns. -/
-inductive Family
-  | gaussian | lognormal | normal | gamma | invgamma | beta | laplace | uniform | cauchy | mhn
-  | gmrfZero | gmrfNeumann | gmrfPeriodic
-  deriving DecidableEq, Repr
-
-def Family.ofString : String → Option Family
-  | "gaussian" => some .gaussian | "lognormal" => some .lognormal | "normal" => some .normal
-  | "gamma" => some .gamma | "invgamma" => some .invgamma | "beta" => some .beta
-  | "laplace" => some .laplace | "uniform" => some .uniform | "cauchy" => some .cauchy
-  | "mhn" => some .mhn | "gmrfZero" => some .gmrfZero | "gmrfNeumann" => some .gmrfNeumann
-  | "gmrfPeriodic" => some .gmrfPeriodic | _ => none
 
 /-- Shape of the array `_sample(N)` returns for a distribution of dimension `dim`.
     * Gaussian / Lognormal: `(dim, N)`;  the iid families: `rng.f(…, (N, dim)).T` = `(dim, N)`;
